@@ -295,7 +295,7 @@ def json_grammars(check: Check, repo: Repo) -> None:
 
 def run(tier: str) -> Check:
     check = Check("C17", tier, EXPLANATION)
-    check.rules = ["CALC-LEVELS", "CALC-ASSOC", "CLIMB-LOOP", "CLIMB-ASSOC", "GRAMMAR-LEVELS", "JSON-LEX", "P1", "P2", "P3", "P4", "P5", "STREAM"]
+    check.rules = ["CALC-LEVELS", "CALC-ASSOC", "CLIMB-LOOP", "CLIMB-ASSOC", "GRAMMAR-LEVELS", "JSON-LEX", "PRATT", "P1", "P2", "P3", "P4", "P5", "STREAM"]
     check.assumptions = [
         "tree mirroring of json.loads, prefix rejection on concrete documents and evaluated values are run-time results and are not decided",
         "RFC 8259 number/string ABNF is frozen in the checker as reference regular expressions",
